@@ -406,6 +406,7 @@ struct Worker {
   size_t next_pos = 0;          // next position in this worker's stripe
   bool done = false;
   std::string errpath;
+  std::string breadcrumb;
 };
 
 struct CheckState {
@@ -473,7 +474,18 @@ static void spawn_worker(const CheckState& cs, Worker& w) {
   w.pid = pid; w.fd = pfd[0]; w.buf.clear(); w.current = -1; w.done = false;
 }
 
-struct Violation { size_t index; std::string cls, detail; uint64_t hash; };
+struct Violation { size_t index; std::string cls, detail; uint64_t hash; std::string breadcrumb; };
+
+static void apply_breadcrumb(Plan& plan, const std::string& kv) {
+  size_t p = 0;
+  while (p < kv.size()) {
+    size_t e = kv.find(' ', p); if (e == std::string::npos) e = kv.size();
+    std::string item = kv.substr(p, e - p); p = e + 1;
+    size_t eq = item.find('=');
+    if (eq == std::string::npos) continue;
+    plan.set(item.substr(0, eq).c_str(), strtoll(item.c_str() + eq + 1, nullptr, 10));
+  }
+}
 
 static int cmd_check(int argc, char** argv) {
   CheckState cs;
@@ -544,6 +556,7 @@ static int cmd_check(int argc, char** argv) {
   bool stop = false;
   bool budget_hit = false;
 
+  std::string current_breadcrumb;
   auto handle_violation = [&](size_t index, const std::string& cls, const std::string& detail, uint64_t hash) {
     for (auto& k : known) {
       if (!k.fixed && k.prop == cs.prop && !k.cls.empty() && cls == k.cls) {
@@ -552,7 +565,7 @@ static int cmd_check(int argc, char** argv) {
         return;
       }
     }
-    violations.push_back(Violation{index, cls, detail, hash});
+    violations.push_back(Violation{index, cls, detail, hash, current_breadcrumb});
     stop = true;
   };
 
@@ -582,7 +595,8 @@ static int cmd_check(int argc, char** argv) {
         p = e + 1;
         if (line.empty()) continue;
         switch (line[0]) {
-          case 'S': { size_t i, pos; if (sscanf(line.c_str(), "S %zu %zu", &i, &pos) == 2) { w.current = (long long)i; w.current_since = now; w.next_pos = pos + 1; } break; }
+          case 'S': { size_t i, pos; if (sscanf(line.c_str(), "S %zu %zu", &i, &pos) == 2) { w.current = (long long)i; w.current_since = now; w.next_pos = pos + 1; w.breadcrumb.clear(); } break; }
+          case 'B': { size_t i; int n = 0; if (sscanf(line.c_str(), "B %zu %n", &i, &n) >= 1) { w.breadcrumb = line.substr(size_t(n)); w.current_since = now; } break; }
           case 'E': {
             unsigned long long i, h, st; int nt;
             if (sscanf(line.c_str(), "E %llu %llx %d %llu", &i, &h, &nt, &st) == 4 && i < cs.order.size()) {
@@ -597,6 +611,7 @@ static int cmd_check(int argc, char** argv) {
           case 'V': {
             Outcome o; parse_result_lines(line + "\n", o, nullptr);
             size_t i = 0; sscanf(line.c_str(), "V %zu", &i);
+            current_breadcrumb = w.breadcrumb;
             handle_violation(i, o.cls, unescape_detail(o.detail), o.hash);
             break;
           }
@@ -610,6 +625,7 @@ static int cmd_check(int argc, char** argv) {
       w.buf.erase(0, p);
       if (!eof && w.current >= 0 && now - w.current_since > 180) {
         kill(w.pid, SIGKILL);
+        current_breadcrumb = w.breadcrumb;
         handle_violation(size_t(w.current), "hang", "worker did not finish the run within 180 s", 0);
         eof = true;
       }
@@ -628,6 +644,7 @@ static int cmd_check(int argc, char** argv) {
             if (WIFSIGNALED(status)) snprintf(b, sizeof b, "signal:%d", WTERMSIG(status)); else snprintf(b, sizeof b, "exit:%d", WIFEXITED(status) ? WEXITSTATUS(status) : -1);
             cls = b; detail = text.size() > 2000 ? text.substr(text.size() - 2000) : text;
           }
+          current_breadcrumb = w.breadcrumb;
           handle_violation(size_t(w.current), cls, detail, 0);
         }
         if (!clean && !stop && w.next_pos < cs.stripes[size_t(w.id)].size()) spawn_worker(cs, w);   // restart after the failed run
@@ -676,6 +693,7 @@ static int cmd_check(int argc, char** argv) {
     if (confirmed >= 3) break;
     const Scenario& s = *cs.ss[size_t(cs.order[v.index].scen)];
     Plan plan = make_plan(s, cs.verif_seed, cs.order[v.index].local, cs.thorough, int(v.index % vm::kProfileCount));
+    if (!v.breadcrumb.empty()) apply_breadcrumb(plan, v.breadcrumb);
     fprintf(stderr, "[check] candidate violation class=%s scenario=%s seed=%llu; reproducing and minimising...\n", v.cls.c_str(), s.name, (unsigned long long)plan.seed);
     Outcome first = run_in_child(s, plan);
     if (!first.violation) {
